@@ -658,6 +658,7 @@ def _do_save(ctx, pool, fs, files, objs, kind, o):
     fault = tuple(o['fault']) if o['fault'] else None
     entry = None
     handle = None
+    reopened = None
     dest = None
     as_pathobj = False
     if target in ('pathobj', 'existing_pathobj'):
@@ -723,6 +724,18 @@ def _do_save(ctx, pool, fs, files, objs, kind, o):
             entry = c[o['p'] % len(c)]
             handle = dest = entry['handle']
             ow = True
+            if ft == 'pkl' and o['t'] % 3 == 0 and not entry.get('faulty_handle'):
+                # the file is opened again the way a script that keeps adding to / updating a file opens it (append or
+                # update mode) and the object saved with overwrite: afterwards the file holds exactly the new object
+                try:
+                    entry['handle'].close()
+                except Exception:
+                    pass
+                mode = ['ab', 'r+b', 'a+b'][(o['t'] // 3) % 3]
+                reopened = handle = dest = fs.open_handle(entry['path'], mode)
+                entry['handle'] = None
+                target = 'reopened_handle:' + mode
+                ctx.probe('save_to_reopened_handle:' + mode)
     if target == 'path':
         dest = fs.new_path(ext)
     elif target == 'handle':
@@ -757,6 +770,11 @@ def _do_save(ctx, pool, fs, files, objs, kind, o):
         raised = ex
         raised.__traceback__ = None      # do not keep the failed call's frames (and its h5py File object) alive
     fs.pending_fault = None
+    if reopened is not None:
+        try:
+            reopened.close()
+        except Exception:
+            pass
     if raised is not None:
         import gc
         gc.collect()                     # finalise the File object of the failed save now, deterministically
